@@ -63,7 +63,7 @@ class SchedulerQueue:
     def peek_last_event_dt(self) -> Optional[datetime.datetime]:
         ret = None
         if self._queue:
-            ret = self._queue[-1].when
+            ret = max(job.when for job in self._queue)
         return ret
 
     def pop(self) -> Tuple[datetime.datetime, SchedulerJob]:
